@@ -33,10 +33,23 @@ package wal
 // is all-or-nothing only if it reaches the file in ONE write: when the first record is written, the whole batch
 // (totalSize bytes) must fit into the free space of the buffered writer, so that no record of it is handed to the file
 // before the others (A-MEM: a batch is smaller than 2^62 bytes, so the size computation does not wrap).
+// A writer is replaced (larger buffer for a large batch) only when everything written through it has reached the file:
+// bytes still buffered in the old writer would be lost.  A batch consumes exactly one sequence number, its start number,
+// and every record of the batch is stamped with it: no number at or above the new counter is ever stored.
+// All-or-nothing against process death: the batch is written through the buffered writer without any of its bytes
+// being handed to the file before the last one is written, i.e. when the last record has been written everything
+// the batch wrote (its true size: bsum, 7 header bytes + the entry layout per entry) is still in the buffer.
+//@ pure rec func bsum(s []*Entry, i int) int = ite(i <= 0, 0, bsum(s, i-1) + 20 + len(s[i-1].Key) + ite(s[i-1].Type != OpTypeDelete, 4 + len(s[i-1].Value), 0))
 //@ func (*WAL).AppendBatch
-//@   check[C02,C03] before call (*WAL).writeRecord#1: i > 0 || totalSize >= 4611686018427387904 || totalSize <= wrcap[w.writer] - (wrlen[w.writer] - wrflushed[w.writer])
+//@   requires[INV] forall k int :: 0 <= k && k < len(entries) ==> entries[k] != nil
+//@   requires[INV] forall k int :: 0 <= k && k <= len(entries) ==> 0 <= bsum(entries, k) && bsum(entries, k) < 4611686018427387904
+//@   check[C02,C03] before call (*WAL).notifyBatchObservers#1: wrflushed[w.writer] <= batchStart && wrlen[w.writer] - wrflushed[w.writer] <= wrcap[w.writer]
+//@   ghost before call (*bufio.Writer).Size#1: batchStart = wrlen[w.writer]
+//@   ghost after call bufio.NewWriterSize#1: batchStart = 0
+//@   check[C02,C09] before call bufio.NewWriterSize#1: wrflushed[w.writer] == wrlen[w.writer]
+//@   check[C08,C09] before call (*WAL).writeRecord#1: startSeqNum == old(w.nextSequence) && arg_seqNum == startSeqNum
 //@   nonblocking[C15]
-//@   modifies w.nextSequence, w.bytesWritten, w.batchByteSize, w.overflowWarning, w.lastSync, w.writer, all(Mem byte), wrlen, wrbytes, walLastType, wrflushed, filesyncs
+//@   modifies w.nextSequence, w.bytesWritten, w.batchByteSize, w.overflowWarning, w.lastSync, w.writer, all(Mem byte), wrlen, wrbytes, walLastType, wrflushed, filesyncs, batchStart
 //@   ensures[C02]     err == nil && len(entries) > 0 && w.cfg.WALSyncMode == config.SyncImmediate ==> wrflushed[w.writer] == wrlen[w.writer] && filesyncs > old(filesyncs)
 //@   ensures[C08]     w.nextSequence >= old(w.nextSequence)
 //@   ensures[C08]     err == nil && len(entries) == 0 ==> result0 == old(w.nextSequence) && w.nextSequence == old(w.nextSequence)
@@ -46,8 +59,12 @@ package wal
 
 // C02: synchronous logging - a nil result in SyncImmediate mode means that every byte written through the log's writer
 // so far has been flushed to the file and the file has been fsynced, in that order.
+//@ ghost global batchStart int
+//@ loop (*WAL).AppendBatch#1
+//@   invariant[C02,C03] totalSize == bsum(entries, idx) && 0 <= idx && idx <= len(entries)
 //@ loop (*WAL).AppendBatch#2
-//@   invariant[C02,C03] idx == 0 && totalSize < 4611686018427387904 ==> totalSize <= wrcap[w.writer] - (wrlen[w.writer] - wrflushed[w.writer])
+//@   invariant[C02,C03] 0 <= idx && idx <= len(entries) && wrflushed[w.writer] <= batchStart
+//@   invariant[C02,C03] wrlen[w.writer] - wrflushed[w.writer] + bsum(entries, len(entries)) - bsum(entries, idx) <= wrcap[w.writer]
 //@ func (*WAL).maybeSync
 //@   modifies w.lastSync, w.batchByteSize, wrflushed, filesyncs
 //@   ensures[C02] err == nil && w.cfg.WALSyncMode == config.SyncImmediate ==> wrflushed[w.writer] == wrlen[w.writer] && filesyncs > old(filesyncs)
@@ -65,6 +82,7 @@ package wal
 //@ predicate EntryLayout(d []byte, t uint8, seq uint64, k []byte, v []byte) = len(d) == 13 + len(k) + ite(t != OpTypeDelete, 4 + len(v), 0) && d[0] == t && le64(d, 1) == seq && le32(d, 9) == len(k) && bstr(d[13:13+len(k)]) == bstr(k) && (t != OpTypeDelete ==> le32(d, 13+len(k)) == len(v) && bstr(d[17+len(k):17+len(k)+len(v)]) == bstr(v))
 //@ func (*WAL).writeRecord
 //@   modifies w.bytesWritten, w.batchByteSize, wrlen, wrbytes, walLastType
+//@   ensures[C02,C03] err == nil ==> wrlen[w.writer] == old(wrlen[w.writer]) + 20 + len(key) + ite(entryType != OpTypeDelete, 4 + len(value), 0)
 //@   ensures[C09] err == nil ==> walLastType == recordType
 //@   ensures[C02] err == nil ==> wrlen[w.writer] > old(wrlen[w.writer])
 //@   check[C09] before call (*WAL).writeRawRecord#1: arg_recordType == recordType
